@@ -46,31 +46,31 @@ def plan(tier: str, seed: int) -> list[dict]:
     for opt in gen.OPTIMIZERS:
         for rep in range(reps):
             # continuous, both directions, all stop criteria, documented scale and above
-            add(opt, gen.task_desc(rng, "contmulti", minmax="min"), gen.config_dict(rng, opt, scale=1, stop="cycles"), tag="cont")
+            add(opt, gen.task_desc(rng, "contmulti", minmax="min"), gen.config_dict(rng, opt, scale=1, stop="cycles", jit=rng.random() < 0.7), tag="cont")
             add(opt, gen.task_desc(rng, "contmulti", minmax="max"), gen.config_dict(rng, opt, scale=rng.choice([1, 1.5, 2]), stop="cycles", jit=True), tag="cont")
             add(opt, gen.task_desc(rng, "cont", regime=rng.choice(["zero_lb", "zero_ub", "mixed"])),
-                gen.config_dict(rng, opt, scale=1, stop=rng.choice(["fe", "es", "both"])), tag="cont")
-            add(opt, gen.task_desc(rng, "multiobj"), gen.config_dict(rng, opt, scale=rng.choice([1, 3]), max_cycles=rng.choice([1, 2, 4])), tag="cont")
-            add(opt, gen.task_desc(rng, "contmulti", dim=rng.choice([1, 2, 6])), gen.config_dict(rng, opt, max_cycles=1), tag="cont")
+                gen.config_dict(rng, opt, scale=1, stop=rng.choice(["fe", "es", "both"]), jit=rng.random() < 0.7), tag="cont")
+            add(opt, gen.task_desc(rng, "multiobj"), gen.config_dict(rng, opt, scale=rng.choice([1, 3]), max_cycles=rng.choice([1, 2, 4]), jit=rng.random() < 0.7), tag="cont")
+            add(opt, gen.task_desc(rng, "contmulti", dim=rng.choice([1, 2, 6])), gen.config_dict(rng, opt, max_cycles=1, jit=rng.random() < 0.7), tag="cont")
             # population sizes above the documented scale that are odd / not multiples of a group size
             add(opt, gen.task_desc(rng, "contmulti"), gen.config_dict(rng, opt, scale=rng.choice([1, 1.5]), plus=rng.choice([1, 3, 5, 7]), max_cycles=rng.choice([2, 3]), jit=rng.random() < 0.5), tag="cont")
             # long runs at the documented scale: rare branches, late cycles, slow drifts (4 per repetition)
             for _ in range(4):
                 d = gen.task_desc(rng, rng.choice(["contmulti", "cont"]), dim=rng.choice([2, 3, 4]))
                 d["offset"] = rng.choice([0.0, 250.0, -1000.0, 1e6])
-                add(opt, d, gen.config_dict(rng, opt, scale=1, max_cycles=40, stop="cycles"), tag="long")
+                add(opt, d, gen.config_dict(rng, opt, scale=1, max_cycles=40, stop="cycles", jit=rng.random() < 0.7), tag="long")
             # many continuous variables (vectorised paths), a coordinate on a zero bound
             add(opt, gen.task_desc(rng, rng.choice(["contmulti", "cont"]), dim=rng.choice([8, 10, 12]), regime=rng.choice(["zero_lb", "zero_ub", "mixed", "unit"])),
-                gen.config_dict(rng, opt, max_cycles=rng.choice([2, 3])), tag="cont")
+                gen.config_dict(rng, opt, max_cycles=rng.choice([2, 3]), jit=rng.random() < 0.7), tag="cont")
             # the documented cycle budget and beyond (defects that only show in later cycles)
-            add(opt, gen.task_desc(rng, rng.choice(["contmulti", "cont"])), gen.config_dict(rng, opt, max_cycles=rng.choice([8, 10, 12, 20]), stop="cycles"), tag="cont")
+            add(opt, gen.task_desc(rng, rng.choice(["contmulti", "cont"])), gen.config_dict(rng, opt, max_cycles=rng.choice([8, 10, 12, 20]), stop="cycles", jit=rng.random() < 0.7), tag="cont")
             # solver modes
-            add(opt, gen.task_desc(rng, "contmulti"), gen.config_dict(rng, opt, max_cycles=3), mode="thread", workers=rng.choice([1, 2, 3, 8]), tag="thread")
+            add(opt, gen.task_desc(rng, "contmulti"), gen.config_dict(rng, opt, max_cycles=3, jit=rng.random() < 0.7), mode="thread", workers=rng.choice([1, 2, 3, 8]), tag="thread")
             if rep == 0:
-                add(opt, gen.task_desc(rng, "contmulti", dim=2), gen.config_dict(rng, opt, max_cycles=2), mode="process", workers=rng.choice([2, 3]), tag="process")
+                add(opt, gen.task_desc(rng, "contmulti", dim=2), gen.config_dict(rng, opt, max_cycles=2, jit=rng.random() < 0.7), mode="process", workers=rng.choice([2, 3]), tag="process")
             # integer-coded encodings (C06: per (optimizer, encoding) baseline)
             for enc in (["disc", "discmulti", "bin", "mixed", "perm"] if tier == "thorough" else [rng.choice(["disc", "discmulti", "bin"]), rng.choice(["mixed", "perm"])]):
-                add(opt, gen.task_desc(rng, enc), gen.config_dict(rng, opt, max_cycles=rng.choice([2, 3])), tag="int")
+                add(opt, gen.task_desc(rng, enc), gen.config_dict(rng, opt, max_cycles=rng.choice([2, 3]), jit=rng.random() < 0.7), tag="int")
     return runs
 
 
